@@ -284,7 +284,8 @@ CLAIMS = {
          "(each index exactly once, never past n, aligned body), and the stale-counter variant is refuted.",
     design_ref="DESIGN.md sections 6 (design) and 12 (as built), C01",
     note="Value coverage is bounded by TLC's evaluation rate (about 10^5..10^6 elements per run); flag subsets are "
-         "C11's, float opcodes C18's; rows are aligned to the element size; programs have at most 4 instructions.",
+         "C11's, float opcodes C18's; rows are aligned to the element size; programs have at most 4 instructions; one "
+         "x-flag per program (a parameter used by an x2 and a plain instruction of one program is not covered).",
     technique="TLA+ executable semantics (OrcOps, OrcProg) evaluated by TLC on traces of native executions; TLC model "
               "checking of the loop-split design (X86Loop)"),
 }
